@@ -60,6 +60,9 @@ package vm
 // default formatting (fmt.Sprint of one value) and repetition are uninterpreted
 //@ spec fun sprintI(i any) string
 //@ spec fun strRepeat(s string, n int) string
+//@ spec fun strHasPrefix(s string, p string) bool
+// decStr(s): s is not spelled with a 0x / 0b prefix (tryToInt64 reads those in base 16 / 2)
+//@ spec fun decStr(s string) bool = !strHasPrefix(s, "0x") && !strHasPrefix(s, "0b")
 
 // the two boolean values
 //@ global_inv bools: trueValue != falseValue && rvKind(trueValue) == reflect.Bool && rvBool(trueValue) && rvKind(falseValue) == reflect.Bool && !rvBool(falseValue) && rvValid(trueValue) && rvValid(falseValue)
